@@ -193,6 +193,15 @@ struct SimClock {
 };
 extern SimClock g_clock;
 
+// H1: audit of every Parameter the library creates or updates (guarded hook in /repo, BPP_CORE_VERIF)
+struct ParamAudit {
+  long calls = 0, offences = 0;
+  std::string first;       // "<where> <parameter name>" of the first offence (no addresses)
+  void reset() { calls = 0; offences = 0; first.clear(); }
+};
+extern ParamAudit g_audit;
+void installParamAudit();
+
 // reset of process-wide library statics + RNG seed; called by the runner before every run
 void resetWorld(uint64_t seed);
 
